@@ -79,6 +79,81 @@ func BlockEndCallbackRule(w *World, r *Result, rule string) {
 			}
 			return false
 		}
+		// the callback is called whatever the block holds: the checks it makes (a function with a
+		// result ends in a return) also apply to a block without statements
+		{
+			guarded := ""
+			calls := 0
+			for _, g := range withLiterals(fn) {
+				for _, b := range g.Blocks {
+					for _, ins := range b.Instrs {
+						c, ok := ins.(*ssa.Call)
+						if !ok {
+							continue
+						}
+						v := c.Call.Value
+						if u, ok := v.(*ssa.UnOp); ok {
+							v = u.X
+						}
+						isCb := v == ssa.Value(cb)
+						if fv, ok := v.(*ssa.FreeVar); ok && g != fn {
+							isCb = isCb || types.Identical(fv.Type().(*types.Pointer).Elem(), cb.Type()) || types.Identical(fv.Type(), cb.Type())
+						}
+						if !isCb {
+							continue
+						}
+						calls++
+						for d := b; d != nil; d = d.Idom() {
+							par := d.Idom()
+							if par == nil {
+								break
+							}
+							cnd, _ := condOf(par)
+							if cnd == nil || len(par.Succs) != 2 {
+								continue
+							}
+							onT := par.Succs[0].Dominates(b) && len(par.Succs[0].Preds) == 1
+							onF := par.Succs[1].Dominates(b) && len(par.Succs[1].Preds) == 1
+							if onT == onF {
+								continue
+							}
+							usesLen := false
+							var look func(x ssa.Value, depth int)
+							look = func(x ssa.Value, depth int) {
+								if x == nil || depth > 4 {
+									return
+								}
+								if lenCallArg(x) != nil {
+									usesLen = true
+									return
+								}
+								if ins, ok := x.(ssa.Instruction); ok {
+									if _, isCall := x.(*ssa.Call); isCall {
+										return
+									}
+									var ops []*ssa.Value
+									for _, o := range ins.Operands(ops) {
+										look(*o, depth+1)
+									}
+								}
+							}
+							look(cnd, 0)
+							if usesLen {
+								guarded = w.Pos(cnd.Pos())
+							}
+						}
+					}
+				}
+			}
+			if calls > 0 {
+				key := fmt.Sprintf("callback-unconditional:%s", FuncName(fn))
+				if guarded != "" {
+					r.Bad(rule, key, w.Pos(fn.Pos()), "the end-of-block callback is called only when a length test holds ("+guarded+"): for a block without statements the checks made at the end of a block are skipped — func f() int { } is accepted and its caller reads a result that was never set")
+				} else {
+					r.Ok(rule, key, w.Pos(fn.Pos()), "the end-of-block callback is called whatever the block holds")
+				}
+			}
+		}
 		hasCb := map[*ssa.BasicBlock]bool{}
 		for _, b := range fn.Blocks {
 			for _, ins := range b.Instrs {
